@@ -26,7 +26,8 @@ def _gt(*names):
     return [(TIE_MODULE[n], GENTIE + "." + n) for n in names]
 
 THEOREMS = {
-    "C01": _gt("errEnum_eq", "rfcEnum_eq", "setup_eq", "limits_eq"),
+    "C01": _gt("errEnum_eq", "rfcEnum_eq", "setup_eq", "limits_eq") + [("Eav.Props.C01", "Eav.Props.C01." + n) for n in
+            ("splitLast_iff", "email_iff", "always_rejected", "rc_nonpos_off", "setup_selects_mode", "eavIsEmail_spec", "localOf_nonpos")],
     "C02": _gt("errEnum_eq", "specials_eq") + [("Eav.Props.C02", "Eav.Props.C02." + n) for n in
             ("local_iff_5321", "local_iff_822", "local_iff_5322", "no_high_byte", "no_leading_dot")] +
            [("Eav.Lemmas.LocalGrammar", "Eav.Spec.specLocal_iff"), ("Eav.Lemmas.LocalScan", "Eav.is5321Local_iff"),
